@@ -57,6 +57,24 @@ def item_rules(run: Run, model: PyModel, tree0: Any, rid_kind: str, rid_ident: s
         if exp is not None:
             expect.append((line, pre, prio, body, exp))
         line += 1
+    # multi-line items whose inner lines end in blanks and that hold a blank-only continuation line: the body is the item's text, every line as written
+    def _find(t, rule):
+        if isinstance(t, T):
+            if t.rule == rule:
+                return t
+            for k in t.kids:
+                r = _find(k, rule)
+                if r is not None:
+                    return r
+        return None
+
+    for pre, prio in (("-", None), ("o", "P4")):
+        raw = " wrapped item whose lines end in blanks  \n  * the boiler   \n   \n  * the lease\t"
+        it = item_tree(pre, "wrapped item whose lines end in blanks", prio, line)
+        _find(it, "note_body").text = raw
+        items.append(it)
+        expect.append((line, pre, prio, raw.strip(), dict()))
+        line += 1
     try:
         notes, raised, imprecise = compile_items(model, tree0, items)
     except Exception as e:
@@ -105,4 +123,4 @@ def item_rules(run: Run, model: PyModel, tree0: Any, rid_kind: str, rid_ident: s
             run.check(rid_alike if exp["zid"] is None and exp["create"].tag == "TODAY" else rid_ident, f"line {ln}: ZID / create date / modify date are those written in the item (`{body[:32]}`)", ok, "ZorgFileCompiler", f"line {ln}: {what}",
                       f"the item `{body}` compiles to {what}; expected zid={exp['zid']!r} create={exp['create'].tag!r} modify={exp['modify'].tag!r} "
                       "(only the first word -- or the second after a YYMMDD modify date -- can be the ZID / a date; words that merely look like them further on are text)", file=FILE)
-    run.floor("item scenarios compiled", len(notes), 15)
+    run.floor("item scenarios compiled", len(notes), 17)
